@@ -5,6 +5,7 @@ import (
 	"fmt"
 	"io"
 	"os"
+	"strings"
 	"testing"
 	"time"
 
@@ -876,6 +877,10 @@ func TestReplay(t *testing.T) {
 	buf, err := os.ReadFile(path)
 	if err != nil {
 		t.Fatal(err)
+	}
+	if strings.Contains(string(buf), leafMarker2) {
+		replayLeafEdit(t, string(buf))
+		return
 	}
 	var steps []Step
 	if err := json.Unmarshal(buf, &steps); err != nil {
